@@ -6,7 +6,7 @@ From V.c15 Require Import C15AvcConfModel C15AvcConfSpec.
 From V.c15 Require Import C15HevcModel C15HevcSpec.
 From V.c15 Require Import C15HevcConfModel C15HevcConfSpec.
 From V.c15 Require Import C15InitModel C15InitSpec.
-From V.c15 Require Import C15Hevc2Model C15Hevc2Spec.
+From V.c15 Require Import C15Hevc2Model C15Hevc2Spec C15Avc2Model.
 Require Import ExtrOcamlBasic.
 Separate Extraction
   parse_sps_er parse_sps_br flat_sps
@@ -22,4 +22,5 @@ Separate Extraction
   hs_address_bits hs_poc_bits hs_num_pic_total_curr hs_l0 hs_l1 hs_lt_idx_bits hs_list_entry_bits
   hconf_observe hconf_decode_observe expected_hconf_observe spec_hvcc nalus_fit hconf_depths_fit
   ainit_observe hinit_observe expected_ainit expected_hinit ainit_fits
-  hparse_pps2_er hparse_pps2_br flat_hpps2 hnalu_pps2 expected_hpps2 hpps2_valid.
+  hparse_pps2_er hparse_pps2_br flat_hpps2 hnalu_pps2 expected_hpps2 hpps2_valid
+  parse_slice2_er parse_slice2_br.
